@@ -87,6 +87,13 @@ CLAIMS.update({
             "DESIGN 4/C07", "contract-based deductive verification (pyvc+z3 incl. string theory); bounded contract checking for the string front ends and groupby", BASE_TRUST),
 })
 
+CLAIMS.update({
+    "C05": ("other", "What signac itself contributes is proved: Job.document hands out one cached BufferedJSONAttrDict bound to this job's document file with write_concern=True, only after the "
+            "directory exists; `job.document = v` resets that persistent document exactly once whatever the value; handles are dropped on remove / id change (C03/C04 contracts); signac.buffered & "
+            "friends are attributes of that very class. The dict / buffering semantics themselves belong to the dependency: assumed, and checked bounded against a plain dict model (dependency "
+            "findings F23/F24 recorded).", "DESIGN 4/C05", "contract-based deductive verification of the wiring (pyvc+z3); bounded model-equality contract for the dependency's dict semantics", FS_NOTE),
+})
+
 NOT_YET = "not yet under contract in this round of the build (see DESIGN.md section 8 for the order); no check is registered, nothing is claimed"
 
 NA = {}
